@@ -2,7 +2,7 @@
 # merges /tmp/seedmatrix/*.log and /tmp/confirm.log into /verif/seeded/<id>/<v>/meta.json and prints the DESIGN table
 import json,os,re,glob,subprocess
 head=subprocess.run("git -C /repo log --format=%h -1",shell=True,capture_output=True,text=True).stdout.strip()
-conf=open('/tmp/confirm.log').read() if os.path.exists('/tmp/confirm.log') else ''
+conf=open('/tmp/confirm_all.log').read() if os.path.exists('/tmp/confirm_all.log') else ''
 rows=[]
 for d in sorted(glob.glob('/verif/seeded/C*/[ab]')):
     p,v=d.split('/')[-2:]
